@@ -49,6 +49,8 @@ def run(chk: Check, model):
                     and inner[1][2] == (S("self.num_hidden_units"),)
                 if dense_ok:
                     actor_map[k] = T.call_name(v)
+        chk.add("C20.layers", "Actor: the first layer sees the network input itself", l.pre.get(nm) == S("x"), f"the hidden layers start from {T.show(l.pre.get(nm, T.NONE))[:100]}, expected the "
+                "argument x (an input transformation inside the Actor has no parameters and is not replicated by the exported policy)", chk.loc(f_a))
         chk.add("C20.layers", "Actor hidden layer = activation(Dense(num_hidden_units)(x))", len(actor_map) == len(keys) and len(keys) >= 1, f"hidden layer body = {T.show(body)[:200]}", chk.loc(f_a))
     else:
         chk.add("C20.layers", "Actor hidden loop over num_hidden_layers", False, "Actor.__call__ must loop range(self.num_hidden_layers)", chk.loc(f_a))
@@ -182,8 +184,10 @@ def run(chk: Check, model):
     act_s = f.get("act_scaling", T.NONE)
     ok = obs_s == T.mk_call("self.runner_state.env_state.aux.get", [T.const("norm_obs"), T.NONE])
     chk.add("C20.extract", "obs_scaling from aux['norm_obs']", ok, f"obs_scaling = {T.show(obs_s)[:120]}", chk.loc(f_x))
-    ok = mentions(act_s, "aux") and any(x == T.const("act_scaling") for x in T.walk(act_s))
-    chk.add("C20.extract", "act_scaling from aux['act_scaling']", ok, f"act_scaling = {T.show(act_s)[:120]}", chk.loc(f_x))
+    # the squashing state is stored per parallel environment: the export takes environment 0 on the env axis (second to last),
+    # keeping every leading (e.g. seed) axis
+    want_act = T.mk_index(T.mk_call("self.runner_state.env_state.aux.get", [T.const("act_scaling"), T.NONE]), ("tuple", (("const", Ellipsis), T.ZERO, ("sl", None, None, None))))
+    chk.add("C20.extract", "act_scaling from aux['act_scaling']", act_s == want_act, f"act_scaling = {T.show(act_s)[:160]}, expected leafwise aux['act_scaling'][..., 0, :]", chk.loc(f_x))
     # the wrappers write exactly these aux keys
     keys = {}
     for q, key in (("rl.NormalizeVecObservationWrapper.step", "norm_obs"), ("rl.SquashActionWrapper.reset", "act_scaling")):
